@@ -182,3 +182,45 @@ package js_parser
 //@   loop 1 invariant 0 <= i && (i <= len(pattern) ==> !reEsc(pattern, i-1))
 //@   loop 1 invariant isUnicode && p.options.unsupportedJSFeatures.Has(compat.RegexpUnicodePropertyEscapes) ==>
 //@       (forall k int :: 0 <= k && k < i && k < len(pattern) ==> !rePropEsc(pattern, k))
+
+// C15: a reference that passes through a `with` body pins the symbol it resolves to (the name may denote a property of
+// the with-object), and a JSX tag under --jsx=preserve must keep a capitalised name. Both renamers read the flags of
+// the symbol at the END of the Link chain only (ast.FollowSymbols); a scope member that hoistSymbols merged into an
+// outer symbol is no longer that symbol. A pin written during the visit pass must therefore land on a chain end.
+//@ func (*parser).findSymbol
+//@   arith int
+//@   prop C15
+//@   opt scenario with_linked_symbol
+//@   site pin-lands-on-the-live-symbol: store Symbol.Flags requires target.Link == ast.InvalidRef
+
+//@ func (*parser).followSymbolLinks
+//@   arith int
+//@   prop C15
+//@   modifies nothing
+//@   ensures chain-end: p.symbols[result.InnerIndex].Link == ast.InvalidRef
+
+// The same for the JSX capital-letter flag, set in visitExprInOut (too large for a function contract): the written
+// symbol is the one followSymbolLinks returns.
+//@ flow jsx-capital-flag-lands-on-the-live-symbol C15: func=(*parser).visitExprInOut ; in=js_parser ; site=store Symbol.Flags ; when=*|2 ; scenario=jsx_capital_linked ; targetpath=p.symbols[call followSymbolLinks(*).InnerIndex].Flags
+
+// C15 ("a mangled property gets the same name everywhere"): a property key that matches --mangle-props is an
+// ENameOfSymbol, a string constant whose text is chosen at link time. Lowering object rest must recognise it as the
+// constant it is before falling back to "arbitrary expression: capture it in a temporary" (which produces
+// `{ _a = "a": foo_ }`, not JavaScript, because the property is not computed).
+//@ decides object-rest-key-cases-cover-mangled-names C15: func=(*parser).captureKeyForObjectRest ; in=js_parser ; site=call generateTempRef ; scenario=mangle_object_rest ; must=type:EString,type:ENameOfSymbol
+
+// C15 ("a mangled property gets the same name everywhere"): a property name that the class lowering GENERATES from an
+// identifier (a TypeScript parameter property `private foo_` defines this.foo_) is spelled as a plain string only after
+// asking isMangledProp, exactly as the reads `this.foo_` were when they were parsed.
+//@ guarded generated-property-names-ask-isMangledProp C15: func=(*lowerClassContext).lowerMethod ; in=js_parser ; site=call StringToUTF16 ; scenario=mangle_ts_param_prop ; require=false:call isMangledProp(*)
+
+// C04: a file with a direct eval keeps every part that declares a top-level symbol (the eval'd code may name it).
+// toAST pins such parts by clearing CanBeRemovedIfUnused on its loop copy of the part; the pin only takes effect if the
+// copy is written back to the part list AFTERWARDS.
+//@ flow eval-pin-reaches-the-part-list C04: func=(*parser).toAST ; in=js_parser ; site=store Part.CanBeRemovedIfUnused ; scenario=eval_pins_declarations ; target-read-after=1
+
+// C14: when static fields of a class are lowered (their initialisers move outside the class body), EVERY private member
+// of the class is lowered with them, instance members too: the moved code may name any of them (`static s = new
+// Foo().#x`), and a private name outside a class body is a SyntaxError in every engine. Nothing about a member other
+// than "its key is a private name" may exempt it; the same goes for names flagged because of a brand check.
+//@ guarded lowering-static-fields-lowers-every-private-member C14: func=(*parser).visitClass ; in=js_parser ; site=store Symbol.Flags ; when=*|8 ; scenario=static_block_instance_private ; allow-only=true:*lowerAllStaticFields && true:phi:rangeindex+1<call len(class.Properties) && true:*.Key.Data#1 && true:p.lowerAllOfThesePrivateNames!=nil && true:p.lowerAllOfThesePrivateNames[*]
